@@ -87,71 +87,6 @@ func checkCorrupted(scen string, in MalIn) (*mc.Violation, string) {
 	return nil, "unclassified-rejected"
 }
 
-// ---- alphabets ----
-
-func st(not bool, n string) gen.AStage { return gen.AStage{Not: not, Name: n} }
-
-func shapes(r *mc.Run) []gen.APoss {
-	names := []string{"a", "lib-x1.2+y"}
-	quals := []string{"", "any", "amd64", "native"}
-	ops := []string{"<<", "<=", "=", ">=", ">>"}
-	vers := []string{"1", "1:2.0~rc1-3"}
-	if !r.Quick() {
-		vers = append(vers, "${binary:Version}")
-	}
-	archLists := [][]string{nil, {"amd64"}, {"amd64", "linux-any"}, {"kfreebsd-amd64"}, {"linux-any", "kfreebsd-amd64", "any-i386"}}
-	profs := [][][]gen.AStage{nil, {{st(false, "p")}}, {{st(true, "p"), st(false, "q")}}, {{st(false, "p")}, {st(true, "q")}}}
-	return gen.PossShapes(names, quals, ops, vers, archLists, profs)
-}
-
-// representative subset: one per feature plus a substvar
-func representatives() []gen.APoss {
-	return []gen.APoss{
-		{Name: "a"},
-		{Name: "lib-x1.2+y", Qual: "any"},
-		{Name: "b", Op: ">=", Num: "1:2.0~rc1-3", Groups: "v"},
-		{Name: "c", Archs: []string{"amd64", "linux-any"}, Groups: "a"},
-		{Name: "d", Archs: []string{"kfreebsd-amd64", "i386"}, ArchNot: true, Groups: "a"},
-		{Name: "e", Profiles: [][]gen.AStage{{st(true, "p"), st(false, "q")}, {st(false, "r")}}, Groups: "pp"},
-		{Name: "f", Qual: "native", Op: "<<", Num: "2", Archs: []string{"any-amd64"}, Profiles: [][]gen.AStage{{st(false, "p")}}, Groups: "vap"},
-		{Substvar: true, Name: "misc:Depends"},
-	}
-}
-
-func fields(reps []gen.APoss, maxPoss int) []gen.ADep {
-	var out []gen.ADep
-	var rec func(cur []gen.APoss, seps []bool)
-	rec = func(cur []gen.APoss, seps []bool) {
-		if len(cur) > 0 {
-			// build ADep from cur and seps (true = ',' starts a new relation)
-			var d gen.ADep
-			d = append(d, gen.ARel{cur[0]})
-			for i := 1; i < len(cur); i++ {
-				if seps[i-1] {
-					d = append(d, gen.ARel{cur[i]})
-				} else {
-					d[len(d)-1] = append(d[len(d)-1], cur[i])
-				}
-			}
-			out = append(out, d)
-		}
-		if len(cur) == maxPoss {
-			return
-		}
-		for _, p := range reps {
-			if len(cur) == 0 {
-				rec(append(append([]gen.APoss{}, cur...), p), seps)
-			} else {
-				for _, s := range []bool{true, false} {
-					rec(append(append([]gen.APoss{}, cur...), p), append(append([]bool{}, seps...), s))
-				}
-			}
-		}
-	}
-	rec(nil, nil)
-	return out
-}
-
 // exploreSpacing enumerates all renderings of d with at most k non-default gaps.
 func exploreSpacing(scen string, d gen.ADep, k int, st *mc.Stats) {
 	segs := d.Segments()
@@ -203,7 +138,7 @@ func Run(r *mc.Run) {
 		"malformed inputs whose rejection reason is not listed in the statement (empty name, stray closer, empty group, trailing comma, deprecated < >) place no demand",
 		"architecture names denote triples per gen.DenoteArch"}
 
-	sh := shapes(r)
+	sh := gen.DepShapes(r.Quick())
 	r.Scenario("single-possibility-shapes", map[string]interface{}{"shapes": len(sh)}, len(sh), func(i int, st *mc.Stats) bool {
 		d := gen.ADep{gen.ARel{sh[i]}}
 		for _, via := range []string{"parse", "control"} {
@@ -224,8 +159,8 @@ func Run(r *mc.Run) {
 		return true
 	})
 
-	reps := representatives()
-	fl := fields(reps, r.Pick(3, 4))
+	reps := gen.DepRepresentatives()
+	fl := gen.DepFields(reps, r.Pick(3, 4))
 	r.Scenario("fields-default-spacing", map[string]interface{}{"representatives": len(reps), "max_possibilities": r.Pick(3, 4), "fields": len(fl)}, 64, func(shard int, st *mc.Stats) bool {
 		for i := shard; i < len(fl); i += 64 {
 			d := fl[i]
@@ -248,7 +183,7 @@ func Run(r *mc.Run) {
 
 	// spacing deviations
 	k := r.Pick(1, 2)
-	small := fields(reps, 2)
+	small := gen.DepFields(reps, 2)
 	var bases []gen.ADep
 	bases = append(bases, small...)
 	// plus every 7th full shape (quick) / every shape (thorough) as a single-possibility field
